@@ -1,6 +1,7 @@
 (* C11, crash points and reload - cases of `h_c11r`: the real MetaCDC over lib/sfake, API calls cut by a crash after n
    writes of the task record, restarts with the real ReloadTask.  After every label: the persisted state, the in-memory
-   state together with what get reports (0 when they disagree is never produced: a disagreement is reported as 9), dead. *)
+   state together with what get reports (a disagreement is reported as 9), dead, and whether the replicate entity of the
+   target is registered. *)
 From Coq Require Import List Arith NArith Bool.
 From Verif Require Import Base.Util.
 From Verif Require Export C11.Reload.
@@ -9,7 +10,7 @@ Import ListNotations.
 Record lcase := { lc_ops : list label; lc_obs : list obs }.
 
 Definition o_eqb (a b : obs) : bool :=
-  let '(s1, m1, d1) := a in let '(s2, m2, d2) := b in Nat.eqb s1 s2 && Nat.eqb m1 m2 && Bool.eqb d1 d2.
+  let '(s1, m1, d1, e1) := a in let '(s2, m2, d2, e2) := b in Nat.eqb s1 s2 && Nat.eqb m1 m2 && Bool.eqb d1 d2 && Bool.eqb e1 e2.
 Fixpoint t_eqb (a b : list obs) : bool :=
   match a, b with
   | [], [] => true
@@ -18,12 +19,15 @@ Fixpoint t_eqb (a b : list obs) : bool :=
   end.
 Definition lagrees (k : lcase) : bool := t_eqb (trace cfg_now init (lc_ops k)) (lc_obs k).
 
-(* the statement on the implementation's own observations: a live process shows one state everywhere, never Initial *)
-Definition o_ok (o : obs) : bool := let '(s, m, d) := o in d || (Nat.eqb s m && negb (Nat.eqb s 1)).
+(* the statement on the implementation's own observations: a live process shows one state everywhere, never Initial; the
+   entity of the target is registered while the task runs and is not registered when there is no task *)
+Definition o_ok (o : obs) : bool :=
+  let '(s, m, d, e) := o in
+  d || (Nat.eqb s m && negb (Nat.eqb s 1) && (negb (Nat.eqb m 2) || e) && (negb (Nat.eqb m 0) || negb e)).
 (* after a restart a persisted task runs *)
 Fixpoint restarts_ok (ops : list label) (os : list obs) : bool :=
   match ops, os with
-  | LRestart :: ops', (s, m, d) :: os' => (Nat.eqb s 0 || Nat.eqb s 2) && restarts_ok ops' os'
+  | LRestart :: ops', (s, m, d, e) :: os' => (Nat.eqb s 0 || Nat.eqb s 2) && restarts_ok ops' os'
   | _ :: ops', _ :: os' => restarts_ok ops' os'
   | [], [] => true
   | _, _ => false
